@@ -9,6 +9,9 @@ import io
 import errno
 
 
+WRITE_BUFFER = 8192      # size of the user-space buffer of a file object (io.DEFAULT_BUFFER_SIZE); checks may scale it down
+
+
 class Killed(BaseException):
     """Raised inside library code when the simulated process is killed."""
 
@@ -89,7 +92,10 @@ class FakeFile(object):
                 raise IOError(errno.ENOENT, 'No such file', path)
         elif m == 'w':
             vfs.mutate(('truncate', path))
-            vfs.files[path] = bytearray()
+            if path in vfs.files:
+                del vfs.files[path][:]      # the same file object is truncated: other open handles see it
+            else:
+                vfs.files[path] = bytearray()
         elif m == 'a':
             if path not in vfs.files:
                 vfs.mutate(('create', path))
@@ -115,6 +121,9 @@ class FakeFile(object):
         if self.closed:
             raise ValueError('write to closed file')
         self.buf += bytes(data)
+        if len(self.buf) >= WRITE_BUFFER:
+            # like io.BufferedWriter: a full user-space buffer is handed to the OS
+            self.flush()
         return len(data)
 
     def flush(self):
